@@ -1238,11 +1238,20 @@ impl<ChannelSigner: EcdsaChannelSigner> OnchainTxHandler<ChannelSigner> {
 		//TODO: if we implement cross-block aggregated claim transaction we need to refresh set of outpoints and regenerate tx but
 		// right now if one of the outpoint get disconnected, just erase whole pending claim request.
 		let mut remove_request = Vec::new();
-		self.claimable_outpoints.retain(|_, ref v|
-			if v.1 > new_best_height {
+		let pending_claim_requests = &self.pending_claim_requests;
+		self.claimable_outpoints.retain(|_, ref v| {
+			// We don't track the height at which the funding output was created, instead recording
+			// the height at which we first tried to claim it. As the funding output isn't created
+			// by a transaction which could have been reorged out here, don't forget that we still
+			// need to get our commitment transaction confirmed.
+			let spends_funding_output = pending_claim_requests.get(&v.0).map_or(false, |req| {
+				req.inputs().any(|input| matches!(input, PackageSolvingData::HolderFundingOutput(_)))
+			});
+			if v.1 > new_best_height && !spends_funding_output {
 				remove_request.push(v.0.clone());
 				false
-			} else { true });
+			} else { true }
+		});
 		for req in remove_request {
 			self.pending_claim_requests.remove(&req);
 		}
